@@ -1,13 +1,16 @@
 (* C10 - Each seat is told exactly what the protocol entitles it to, and nothing else (every schedule).
    Only statements, each closed by [exact]; proofs are in the files imported below. *)
-From BE Require Import Model.Session Model.SessionTie Spec.SessionSpec Proofs.Kahn Proofs.Session Proofs.SessionExamples Proofs.View.
+From BE Require Import Model.Session Model.SessionTie Spec.SessionSpec Proofs.Kahn Proofs.Session Proofs.SessionExamples Proofs.View Model.Conform Proofs.SessionPassOut Proofs.Wire Proofs.SessionConform Proofs.SessionConformLog.
 From BE Require Import Gen.Skeleton Proofs.SkeletonPin.
 From Coq Require Import ZArith.
 Local Open Scope string_scope.
 Local Open Scope nat_scope.
 Local Open Scope list_scope.
-(* FULL STATEMENT (not proved in this form): the lines sent on connection p equal view_spec p of Spec/SessionSpec.v for every
-   input.  Proved: schedule independence for every input; equality with view_spec is evaluated in Coq per exercised session. *)
+(* FULL STATEMENT, PROVED (C10_conforming_session_views / _every_schedule, Proofs/SessionConformLog.v): for every non-empty
+   board list and every conforming behaviour of the four clients, under EVERY schedule the complete sequence of lines sent
+   on each of the four connections equals view_spec of Spec/SessionSpec.v for that seat; the theorems about view_spec below
+   say that this reference is what the property states.  Clients connect in the order N, E, S, W in these theorems; for other
+   arrival orders the schedule-independence theorem plus the per-session evaluation decide (suffix _partial). *)
 (* every channel of the session network has one reader and one writer, for every input and every message that might arrive *)
 Theorem C10_ownership :
   forall x, wf_state msg (rd x) (wr x) cw (init_state x).
@@ -56,6 +59,32 @@ Theorem C10_transcripts_independent_of_timing_partial :
     (exists l'', srun l'' s' = Some s /\ length l' + length l'' = length sched) /\ (sfinal s' -> s' = s).
 Proof. exact every_schedule_reaches_canonical. Qed.
 Print Assumptions C10_transcripts_independent_of_timing_partial.
+
+(* FULL, symbolic and unbounded: a run of every conforming session ends with every process returned and, on each of the four connections, exactly the lines of view_spec for that seat *)
+Theorem C10_conforming_session_views :
+  forall boards ns ew scripts,
+  boards <> [] -> no_quote ns -> no_quote ew -> conforming boards scripts = true ->
+  exists l f, srun l (init_state (conf_session boards ns ew scripts)) = Some f /\ Kahn.all_doneb msg f = true /\
+    lines_of (chan f (tr_down 4 0)) = SS.view_spec ns ns ew (outs_of boards scripts 0) North /\
+    lines_of (chan f (tr_down 4 1)) = SS.view_spec ew ns ew (outs_of boards scripts 0) East /\
+    lines_of (chan f (tr_down 4 2)) = SS.view_spec ns ns ew (outs_of boards scripts 0) South /\
+    lines_of (chan f (tr_down 4 3)) = SS.view_spec ew ns ew (outs_of boards scripts 0) West.
+Proof. exact conforming_session_views. Qed.
+Print Assumptions C10_conforming_session_views.
+
+(* and EVERY maximal run ends in that same state: what each seat is told does not depend on thread timing *)
+Theorem C10_conforming_session_views_every_schedule :
+  forall boards ns ew scripts,
+  boards <> [] -> no_quote ns -> no_quote ew -> conforming boards scripts = true ->
+  exists f n, Kahn.all_doneb msg f = true /\
+    (lines_of (chan f (tr_down 4 0)) = SS.view_spec ns ns ew (outs_of boards scripts 0) North /\
+     lines_of (chan f (tr_down 4 1)) = SS.view_spec ew ns ew (outs_of boards scripts 0) East /\
+     lines_of (chan f (tr_down 4 2)) = SS.view_spec ns ns ew (outs_of boards scripts 0) South /\
+     lines_of (chan f (tr_down 4 3)) = SS.view_spec ew ns ew (outs_of boards scripts 0) West) /\
+    forall l' s', srun l' (init_state (conf_session boards ns ew scripts)) = Some s' ->
+      length l' <= n /\ (sfinal s' -> s' = f).
+Proof. exact conforming_session_views_every_schedule. Qed.
+Print Assumptions C10_conforming_session_views_every_schedule.
 
 (* the reference itself says what the property says: start line, header, own hand; then the auction part; then the play part *)
 Theorem C10_view_decomposition :
